@@ -188,6 +188,15 @@ class DataFlow:
                     b = _base_name(sub.func.value)
                     if b in self.locals:
                         self._new(var=b, kind="mutcall", node=n, target=sub.func.value, value=sub, extra=sub.func.attr)
+                elif (
+                    isinstance(sub.func.value, ast.Name)
+                    and self.func.cls is not None
+                    and self.func.positional
+                    and sub.func.value.id == self.func.positional[0]
+                    and not self.func.is_static
+                ):
+                    # a method call on self may rebind self's attributes
+                    self._new(var=sub.func.value.id, kind="mutcall", node=n, target=sub.func.value, value=sub, extra=f"call:{sub.func.attr}")
             elif isinstance(sub, ast.Call):
                 # out= keyword of numpy functions mutates the named array
                 for kw in sub.keywords:
